@@ -179,6 +179,7 @@ def _check_writer(wname, model):
     for i in range(3):
         try:
             ret = W(path, fm).transform()
+            engine.note(ret)
             engine.tick()
         except Exception:  # noqa: BLE001   a writer that cannot express the model: not C12's subject
             return out
@@ -200,11 +201,74 @@ def _check_writer(wname, model):
             out.append(Fail('independent-copy-differs:' + wname, None))
     except Exception:  # noqa: BLE001
         pass
+    # one writer object across an in-place edit of its model, and after a transform that raised:
+    # the text is a function of the model as it is when transform() runs
+    if not out and outputs and sh.size(model) <= 4:
+        out.extend(_writer_histories(W, wname, model, path, outputs[0]))
     try:
         os.remove(path)
     except OSError:
         pass
     return out
+
+
+def _writer_histories(W, wname, model, path, text0):
+    from .c03 import inplace_edits
+    edits = inplace_edits(model)
+    step = max(1, len(edits) // 5)
+    chosen = [e for e in edits if e[0].startswith('constraint ') or e[0].startswith('remove ')] + edits[::step]
+    for (what, edit, em) in chosen:
+        try:
+            want = _content(path, W(path, bd.build(em)).transform())[0]
+        except Exception:  # noqa: BLE001   (the edited model is outside what this writer can express)
+            continue
+        fm = bd.build(model)
+        wr = W(path, fm)
+        try:
+            wr.transform()
+            edit(fm)
+            if bd.observe(fm) != em:
+                raise AssertionError('in-place edit did not give the expected model: %s' % what)
+            got = _content(path, wr.transform())[0]
+            got2 = _content(path, W(path, fm).transform())[0]
+            engine.tick(4)
+        except AssertionError:
+            raise
+        except Exception as exc:  # noqa: BLE001
+            return [Fail('writer-history-raises:%s:%s' % (wname, type(exc).__name__), {'edit': what, 'msg': str(exc)[:200]})]
+        if got != want:
+            return [Fail('same-writer-after-inplace-edit:' + wname, {'edit': what})]
+        if got2 != want:
+            return [Fail('fresh-writer-after-inplace-edit:' + wname, {'edit': what})]
+    for p, _f in list(sh._paths(model[0]))[1:]:
+        fm = bd.build(model)
+        wr = W(path, fm)
+        obj = fm.root
+        for (ri, ci) in p[:-1]:
+            obj = obj.relations[ri].children[ci]
+        ri, ci = p[-1]
+        kids = obj.relations[ri].children
+        good = kids[ci]
+        kids[ci] = None
+        try:
+            wr.transform()
+            failed = False
+        except Exception:  # noqa: BLE001
+            failed = True
+        kids[ci] = good
+        engine.tick()
+        if not failed:
+            continue
+        try:
+            got = _content(path, wr.transform())[0]
+            got2 = _content(path, W(path, bd.build(model)).transform())[0]
+        except Exception as exc:  # noqa: BLE001
+            return [Fail('writer-history-raises:%s:%s' % (wname, type(exc).__name__), {'after': 'a transform that raised', 'msg': str(exc)[:200]})]
+        if got != text0:
+            return [Fail('same-writer-after-failed-transform:' + wname, None)]
+        if got2 != text0:
+            return [Fail('fresh-writer-after-failed-transform:' + wname, None)]
+    return []
 
 
 _REF = {}
